@@ -150,7 +150,9 @@ def make_struct_members(xml_elem, dynamic_array=False):
         else:
             size = dimension.get("size", None)
             size2 = dimension.get("size2", None)
-            if size2:
+            if size2 and size is None:
+                size = size2
+            elif size2:
                 size = "{}*{}".format(*(x if x.strip().replace("_", "a").isalnum() else "({})".format(x)
                                         for x in (size, size2)))
             if optional:
